@@ -126,6 +126,11 @@ def gen(seed, tier):
         elif what == "child-zero":
             op["child"] = rng.randint(0, 5)
         sc["script"].append(op)
+    if kind in ("linear", "relsupply", "switch") and interval in (0.25, 0.5, 1.0, 2.0, 8.0, 30.0) and not sc.get("restart") and periods >= 4 and rng.random() < 0.15:
+        # the interval attribute is re-assigned while the service runs (in the middle of a pause): the pause in
+        # progress is not cut short, afterwards the service acts once per *new* interval
+        k0 = rng.randint(0, periods - 2)
+        sc["script"].append({"t": sc["start"] + k0 * interval + interval / 2, "what": "set-interval", "value": interval * rng.choice([0.5, 2.0, 4.0])})
     sc["script"].sort(key=lambda o: o["t"])
     return sc
 
@@ -313,6 +318,9 @@ def run(scenario, tape_values):
                 elif what == "child-zero":
                     if children:
                         children[op["child"] % len(children)].poke("demand", 0.0)
+                elif what == "set-interval":
+                    service.interval = float(op["value"])
+                    world.log("interval-set", value=float(op["value"]))
                 elif what == "gc":
                     gc.collect()
                     world.count_fault("gc")
@@ -458,6 +466,16 @@ def _oracle(world, sc, kind, interval, periods, start, params, horizon):
     ev = world.events
     first_k = 1 if kind == "factory" else 0
     expected = [start + k * interval for k in range(first_k, periods + 1)]
+    ivl_at = {t: interval for t in expected}
+    change = next((e for e in ev if e["kind"] == "interval-set"), None)
+    if change is not None:
+        # every pause lasts as long as the interval was when the pause began
+        expected, ivl_at, t = [], {}, start
+        while t <= horizon:
+            cur = change["value"] if change["t"] < t else interval
+            expected.append(t)
+            ivl_at[t] = cur
+            t = t + cur
     expected_set = set(expected) | {start}  # acting at the start instant as well is not ruled out for a FactoryPool
     svc = [e for e in ev if e["actor"] == "service" and e["kind"] in ("read", "write", "rule-call", "factory-call")]
     raised = [e for e in ev if e["kind"] in ("service-raised", "service-returned")]
@@ -514,7 +532,7 @@ def _oracle(world, sc, kind, interval, periods, start, params, horizon):
             after_demand = b.get("after", before)["demand"]
             if kind == "linear":
                 p = {"low": params["low_utilisation"], "high": params["high_allocation"], "rate": params["rate"]}
-                want = _linear_ref(p, before, interval)
+                want = _linear_ref(p, before, ivl_at[t])
             elif kind == "relsupply":
                 p = {"low": params["low_utilisation"], "high": params["high_allocation"], "low_scale": params["low_scale"], "high_scale": params["high_scale"]}
                 want = _relsupply_ref(p, before)
@@ -524,7 +542,7 @@ def _oracle(world, sc, kind, interval, periods, start, params, horizon):
                     if s["demand"] <= before["demand"]:
                         chosen = s["ctrl"]
                 if chosen["k"] == "linear":
-                    want = _linear_ref(chosen, before, interval)
+                    want = _linear_ref(chosen, before, ivl_at[t])
                 else:
                     want = _relsupply_ref(chosen, before)
             else:  # stepwise
@@ -560,7 +578,7 @@ def _oracle(world, sc, kind, interval, periods, start, params, horizon):
         for i in range(len(pts)):
             for j in range(i + 1, len(pts)):
                 span = pts[j][0] - pts[i][0]
-                if abs(pts[j][1] - pts[i][1]) > rate * (span + interval) * (1 + 1e-9):
+                if abs(pts[j][1] - pts[i][1]) > rate * (span + max(ivl_at.values())) * (1 + 1e-9):
                     V("C09/linear-rate-bound", "demand moved %r -> %r within span %r; bound rate*(span+interval)=%r" % (pts[i][1], pts[j][1], span, rate * (span + interval)))
                     return
             if len(pts) > 400:
